@@ -680,6 +680,24 @@ func newHolder(kind string) interface{} {
 	panic(kind)
 }
 
+// usedHolder is a result receiver that already holds the result of an earlier call (a caller that reuses its result
+// variable): whatever the reply carries - also the empty value - is what the receiver must hold afterwards.
+func usedHolder(kind string) interface{} {
+	switch kind {
+	case "jstruct":
+		return &JArg{Tok: "stale-token-of-an-earlier-call", Pad: "stale-pad", Raw: []byte("stale-raw"), N: 77}
+	case "jstring":
+		s := "stale-result-of-an-earlier-call"
+		return &s
+	case "jbytes", "pbbytes":
+		b := []byte("stale-result-of-an-earlier-call")
+		return &b
+	case "pbmsg":
+		return &pb.Payload{Seq: 77, ServiceMethod: "stale-method", Body: []byte("stale-body"), Meta: []byte("stale-meta")}
+	}
+	panic(kind)
+}
+
 // clone copies a received value so that later reuse of buffers cannot change the record.
 func clone(v interface{}) interface{} {
 	switch x := v.(type) {
@@ -1584,7 +1602,12 @@ func runCell(id string, c Cell, seedv int64) {
 		ch := make(chan erpc.CallCmd, 1)
 		tp.reset()
 		cur.Store(rec)
-		sender.AsyncCall(rt.callRoute(c.Body, rec.op), rec.arg, newHolder(c.Body), ch, set...)
+		holder := newHolder(c.Body)
+		if rec.op.N%2 == 1 {
+			holder = usedHolder(c.Body)
+			core.Add("calls_into_a_reused_result_receiver", 1)
+		}
+		sender.AsyncCall(rt.callRoute(c.Body, rec.op), rec.arg, holder, ch, set...)
 		select {
 		case cmd := <-ch:
 			rec.reqFrame, rec.repFrame, rec.orderOK = tp.take(senderEnd)
